@@ -35,7 +35,9 @@
 (***************************************************************************)
 EXTENDS Naturals, Sequences, FiniteSets, TLC
 
-CONSTANTS RVal, RExc, RDrop, RMdes, RMasg, RDtor, RFinal, WCo, WHv, WBl, WCb
+CONSTANTS RVal, RExc, RDrop, RMdes, RMasg, RDtor, RFinal, WCo, WHv, WBl, WCb,
+          PreResolved   \* "none", or how the future was already resolved when the threads start ("val" | "exc" | "drop"):
+                        \* a future built by result_of / operator<< from a function that returned a ready future or threw
 
 Resolvers == RVal \cup RExc \cup RDrop \cup RMdes \cup RMasg \cup RDtor \cup RFinal
 Waiters == WCo \cup WHv \cup WBl \cup WCb
@@ -65,13 +67,13 @@ NoRes == [tag |-> "unread", payload |-> "unread"]
 Result == [tag |-> tag, payload |-> payload]
 
 Init ==
-    /\ owner = IF RFinal # {} THEN "null" ELSE "fut"
-    /\ slot = "null"
+    /\ owner = IF RFinal # {} \/ PreResolved # "none" THEN "null" ELSE "fut"
+    /\ slot = IF PreResolved # "none" THEN "ready" ELSE "null"
     /\ nxt = [w \in Waiters |-> "null"]
     (* a finishing coroutine has stored its result before its first atomic operation *)
-    /\ tag = IF RFinal # {} THEN "val" ELSE "none"
-    /\ payload = IF RFinal # {} THEN CHOOSE r \in RFinal : TRUE ELSE "none"
-    /\ writes = IF RFinal # {} THEN 1 ELSE 0
+    /\ tag = IF RFinal # {} THEN "val" ELSE IF PreResolved \in {"val", "exc"} THEN PreResolved ELSE "none"
+    /\ payload = IF RFinal # {} THEN CHOOSE r \in RFinal : TRUE ELSE IF PreResolved \in {"val", "exc"} THEN "pre" ELSE "none"
+    /\ writes = IF RFinal # {} \/ PreResolved \in {"val", "exc"} THEN 1 ELSE 0
     /\ rpc = [r \in Resolvers |-> IF r \in RFinal THEN "swap" ELSE IF r \in RDtor THEN "dtor"
                                  ELSE IF r \in RMasg THEN "mclaim_own" ELSE "claim"]
     /\ rres = [r \in Resolvers |-> "none"]
@@ -296,7 +298,7 @@ ChainWellFormed ==
 
 (* after resolution nobody stays suspended: every waiter released exactly once with the result *)
 AllReleasedAtEnd ==
-    (ResolversDone /\ Resolvers # {}) =>
+    (ResolversDone /\ (Resolvers # {} \/ PreResolved # "none")) =>
         \A w \in Waiters : /\ wpc[w] # "parked"
                            /\ (wpc[w] = "wait" => flag[w])
                            /\ (wpc[w] = "done" => resumes[w] = 1 /\ seen[w] = Result)
@@ -304,6 +306,6 @@ AllReleasedAtEnd ==
 NoHang == <>[](\A w \in Waiters : wpc[w] = "done")
 
 (* the only terminal states are the completed ones (TLC deadlock check is disabled; this replaces it) *)
-NoStuckState == (~ ENABLED Next) => (ResolversDone /\ (Resolvers # {} => \A w \in Waiters : wpc[w] = "done"))
+NoStuckState == (~ ENABLED Next) => (ResolversDone /\ ((Resolvers # {} \/ PreResolved # "none") => \A w \in Waiters : wpc[w] = "done"))
 
 =============================================================================
